@@ -321,6 +321,10 @@ func unmarshalObject(buf []byte, atys map[string]cty.Type, path cty.Path) (cty.V
 			if err != nil {
 				return cty.NilVal, path.NewErrorf("failed to read object key: %s", err)
 			}
+			// Attribute names in object types are always NFC-normalized, so
+			// we must normalize the name from the document in the same way
+			// before looking it up.
+			k = cty.NormalizeString(k)
 
 			aty, ok := atys[k]
 			if !ok {
